@@ -62,6 +62,8 @@ def gen_cases(rng, n_per_kind, n_perturb):
                 if c['D']['Q'][0] == 'A':
                     c['D']['Q'] = c['D']['Q'][:len(set(q for q, _, _ in c['D']['delta']) | {c['D']['q0']})] or c['D']['Q']
                 c['max_states'] = rng.choice([0, 0, len(c['D']['Q']), len(c['D']['Q']) + 1])
+                if kind == 'dfa2regexp' and len(sigma) == 3 and c['length'] > 4:
+                    c['length'] = 4          # bound 6 over three symbols: up to 1093 words per language and very large extracted expressions (minutes per case in the judge)
             elif kind in ('union', 'intersection', 'symdiff'):
                 # legal state names (\w+) with underscores and non-ASCII letters besides the usual q0, q1, ...
                 n1 = rng.choice([None, None, ['even_a', 'odd_a', 'q_0'], ['α', 'β1', 'q0']])
